@@ -90,6 +90,76 @@ def fam_c18(rnd, tier):
     return [(f"c18:{i}", gen.program_c18(rnd), ["canon", "pad"]) for i in range(n)]
 
 
+BAD_LINES = ["let = ;", "fn (", "print(;", "class { }", "let q = 1 +;", "}", "if { }", "let 5 = 5;", "return 1;", "\"unterminated", "break;"]
+ERR_LINES = ["nil + 1;", "[1][7];", "raise Error(\"repl boom\");", "3();", "nil.zz;"]
+ERR_CLASSES = ["RuntimeError", "IndexError", "Error", "RuntimeError", "RuntimeError"]
+
+
+@family("C19")
+def fam_c19(rnd, tier):
+    """interactive sessions: the top-level statements of generated modules entered one per line, with lines that
+    fail to compile and lines that raise thrown in; the model runs the same entries as a session"""
+    n = 300 if tier == "quick" else 10000
+    out = []
+    for i in range(n):
+        c = rnd.random()
+        if c < 0.4:
+            ast, _ = gen.program_c01(rnd, position="module")
+        elif c < 0.7:
+            ast = gen.program_c03(rnd)
+        elif c < 0.85:
+            ast = gen.program_c02(rnd)
+        else:
+            ast = gen.program_c04(rnd)
+        entries = list(ast["kids"])
+        # runtime-error entries are part of the session the model runs
+        k = rnd.randint(0, 2)
+        for _ in range(k):
+            j = rnd.randrange(len(ERR_LINES))
+            e = [lang.ExprSt(lang.Bin("+", lang.Nil(), lang.Num(1))), lang.ExprSt(lang.Index(lang.List([lang.Num(1)]), lang.Num(7))),
+                 lang.Raise(lang.Call(lang.Var("Error"), [lang.Str("repl boom")])), lang.ExprSt(lang.Call(lang.Num(3), [])),
+                 lang.ExprSt(lang.Prop(lang.Nil(), "zz"))][j]
+            entries.insert(rnd.randint(0, len(entries)), e)
+        out.append((f"c19:{i}", lang.Session(entries), ["repl"]))
+    return out
+
+
+def repl_lines(ast, rnd):
+    """one prompt line per entry, with lines that do not compile inserted (they must leave no trace)"""
+    lines = []
+    for st in ast["kids"]:
+        if rnd.random() < 0.25:
+            lines.append(rnd.choice(BAD_LINES))
+        src, _ = lang.to_source(st, "canon")
+        lines.append(one_line(src).strip())
+    if rnd.random() < 0.5:
+        lines.append(rnd.choice(BAD_LINES))
+    return lines
+
+
+def compare_repl(pred, r):
+    """stdout without prompts must be the predicted lines (error markers removed); stderr must report the predicted
+    error classes in order; the session must end normally"""
+    out = r.get("stdout", "").replace("laythe:> ", "")
+    obs = out.split("\n")
+    if obs and obs[-1] == "":
+        obs = obs[:-1]
+    want = [l for l in pred["out"] if not l.startswith("\x01")]
+    errs = [l[1:] for l in pred["out"] if l.startswith("\x01")]
+    for i in range(max(len(want), len(obs))):
+        a = want[i] if i < len(want) else None
+        b = obs[i] if i < len(obs) else None
+        if a is None or b is None or not langrun.line_matches(a, b):
+            return f"session stdout line {i + 1}: predicted {a!r} observed {b!r}; status {r['status']} {r.get('panic', '')}"
+    if r["status"] != "ok":
+        return f"session ended with {r['status']} {r.get('panic', '')}"
+    import re as _re
+    seen = [x for x in _re.findall(r"^([A-Z][A-Za-z0-9_]*): ", r.get("stderr", ""), _re.M) if x != "Traceback"]
+    if seen != errs:
+        return f"errors reported: predicted {errs} observed {seen}"
+    return None
+
+
 def run(pid, tier, replay=None):
     v = vlib.Verdict(pid, tier)
     rnd = random.Random(vlib.seed() * 7919 + int(pid[1:]))
@@ -113,11 +183,15 @@ def run(pid, tier, replay=None):
     vmcases = []
     for c in cases:
         for lay in c["layouts"]:
+            if lay == "repl":
+                lines = repl_lines(c["ast"], random.Random(hash(c["id"]) % 100000 + vlib.seed()))
+                vmcases.append({"id": f"{c['id']}|repl", "repl": lines, "files": {"main.lay": "\n".join(lines)}, "_case": c["id"], "_layout": lay, "_lines": {}})
+                continue
             src, line_of = render(c["ast"], lay)
             vmcases.append({"id": f"{c['id']}|{lay}", "files": {"main.lay": src}, "_case": c["id"], "_layout": lay, "_lines": line_of})
     vm2 = []
     for rep, b in binaries:
-        res = vlib.run_batch(b, [{k: x[k] for k in ("id", "files")} for x in vmcases], per_case_timeout=20)
+        res = vlib.run_batch(b, [{k: x[k] for k in ("id", "files", "repl") if k in x} for x in vmcases], per_case_timeout=20)
         for x in vmcases:
             y = dict(x)
             y["_rep"] = rep
@@ -146,7 +220,7 @@ def run(pid, tier, replay=None):
             distinct.add(vc["files"]["main.lay"])
         p2 = dict(p)
         p2["out"] = langrun.resolve_backtraces(p["out"], vc["_lines"])
-        diff = langrun.compare(p2, r)
+        diff = compare_repl(p2, r) if vc["_layout"] == "repl" else langrun.compare(p2, r)
         if diff is None and pid == "C18":
             diff = langrun.compare_traceback(p, r, vc["_lines"])
         if diff:
